@@ -340,7 +340,7 @@ def main(ctx):
             else:
                 sh.failures.append({"sig": f.sig, "what": f.what, "replay": f.replay})
         ctx.total.merge(sh)
-    n = 60 if quick else 1500
+    n = 150 if quick else 1500
     stop_at = time.time() + (75 if quick else 900)
     ctx.pmap(worker, [(ctx.seed * 100003 + i, n, known, stop_at, 800 if quick else 6000) for i in range(common.NPROC)])
     ctx.rule = ("case = generated program biased to loops/handlers/tiny strings/yields; BFS over reachable (state, outputs) configurations "
